@@ -8,12 +8,56 @@
 #include <sys/time.h>
 #include <cerrno>
 #define gettimeofday vt_gettimeofday_virtual
+#define clock_gettime vt_clock_gettime_virtual
+#define time vt_time_virtual
 #include "vtime.h"
 #undef gettimeofday
+#undef clock_gettime
+#undef time
 static volatile bool gtod_fail = false;
+// the clock MOVES while one library call runs (op `skew <sub_us> <inc_us> <step_ms>`): the first gettimeofday() of a library call
+// answers the virtual wall clock + sub_us (below the millisecond), the k-th later one first + step_ms + k*inc_us - time passing,
+// a second boundary, an NTP step either way between two looks at the clock.  A library call starts at every API call the harness
+// makes (ops, callback-script acts), after every user callback, and whenever the code looked at the monotonic clock (arming the
+// loop timer ends an activeTimer()).  The harness's own remainSeconds() for the state lines reads the first value (gt_display).
+static volatile int64_t skew_sub_us = 0, skew_inc_us = 0, skew_step_us = 0;
+static volatile bool skew_on = false, gt_display = false, later_fail = false;
+static volatile int gt_reads = 0;
+static inline void call_boundary() { gt_reads = 0; }
+// one look at the wall clock (any source: gettimeofday, time, CLOCK_REALTIME): microseconds as the plan says
+static int64_t wall_reading_us(int64_t us) {
+    if (!vt::enabled) return us;
+    int k = 0;
+    if (!gt_display) { k = gt_reads; gt_reads = k + 1; }
+    if (!skew_on) return us;
+    us += skew_sub_us;
+    if (k > 0) us += skew_step_us + skew_inc_us * k;
+    return us < 0 ? 0 : us;
+}
 extern "C" int gettimeofday(struct timeval *tv, void *tz) {
     if (gtod_fail) { errno = EFAULT; return -1; }
-    return vt_gettimeofday_virtual(tv, tz);
+    // op `gtlater 1`: only the FIRST gettimeofday() of a library call succeeds, every later one fails (the code makes one)
+    if (later_fail && !gt_display && gt_reads > 0) { gt_reads = gt_reads + 1; errno = EFAULT; return -1; }
+    int r = vt_gettimeofday_virtual(tv, tz);
+    if (r == 0 && tv) {
+        int64_t us = wall_reading_us((int64_t)tv->tv_sec * 1000000LL + tv->tv_usec);
+        tv->tv_sec = us / 1000000LL; tv->tv_usec = us % 1000000LL;
+    }
+    return r;
+}
+extern "C" int clock_gettime(clockid_t id, struct timespec *ts) {
+    if (id == CLOCK_MONOTONIC || id == CLOCK_MONOTONIC_RAW || id == CLOCK_MONOTONIC_COARSE || id == CLOCK_BOOTTIME) call_boundary();
+    int r = vt_clock_gettime_virtual(id, ts);
+    if (r == 0 && ts && (id == CLOCK_REALTIME || id == CLOCK_REALTIME_COARSE)) {
+        int64_t us = wall_reading_us((int64_t)ts->tv_sec * 1000000LL + ts->tv_nsec / 1000);
+        ts->tv_sec = us / 1000000LL; ts->tv_nsec = (us % 1000000LL) * 1000;
+    }
+    return r;
+}
+extern "C" time_t time(time_t *t) {
+    time_t v = (time_t)(wall_reading_us((int64_t)vt_time_virtual(nullptr) * 1000000LL + (vt::wall_ns / 1000) % 1000000LL) / 1000000LL);
+    if (t) *t = v;
+    return v;
 }
 #include "loopdrv.h"
 #include <unistd.h>
@@ -69,7 +113,7 @@ static char st[kSlots];   // 'N' or 'I' while not enabled
 static std::string showAt(size_t i) {
     Alarm *a = slots[i].a();
     if (!a) return "-";
-    if (a->isEnabled()) return "R" + std::to_string(a->remainSeconds());
+    if (a->isEnabled()) { gt_display = true; uint32_t r = a->remainSeconds(); gt_display = false; return "R" + std::to_string(r); }
     return std::string(1, st[i]);
 }
 static std::string state_line(int ret) {
@@ -95,6 +139,7 @@ static void on_alarm(size_t i) {
     }
     std::vector<Act> sc = scripts[i];
     for (auto &a : sc) run_act(a);
+    call_boundary();
 }
 
 // the user callback: a closure too large for std::function's inline buffer (so it lives on the heap) whose
@@ -126,6 +171,7 @@ static void reset_all() {
     cal.reset(new WorkdayCalendar());
     pass_callbacks = 0;
     gtod_fail = false;
+    later_fail = false; skew_on = false; skew_sub_us = skew_inc_us = skew_step_us = 0; gt_reads = 0; gt_display = false;
     vt::set_wall_ms(kWall0);
 }
 
@@ -139,6 +185,7 @@ static bool any_workday_enabled() {
 }
 
 static void run_act(const Act &a) {
+    call_boundary();
     if (a.kind == "gt") { gtod_fail = (a.n == 0); return; }
     if (a.kind == "cm") { if (cal) cal->updateWeekMask((uint8_t)a.n); return; }
     if (a.kind == "cs") { if (cal) cal->updateSpecialDays(a.sp); return; }
@@ -275,7 +322,8 @@ int main(int argc, char **argv) {
         if (w.empty()) return true;
         if (w[0] == "case") { reset_all(); std::cout << line << "\n"; return true; }
         const std::string &op = w[0];
-        size_t i = 0; uint64_t sod = 0, t = 0, n = 0; int64_t iv = 0; std::string m; bool b = false; std::map<int, bool> sp;
+        call_boundary();
+        size_t i = 0; uint64_t sod = 0, t = 0, n = 0, n2 = 0; int64_t iv = 0; std::string m; bool b = false; std::map<int, bool> sp;
         if (op == "wk" && w.size() == 4 && bounded(w[1], 2147483647ULL, sod) && mask_of(w[2], m) && bounded(w[3], 4294967295ULL, t)) {
             WeeklyProbe p(loop);
             if (!p.initialize((int)sod, m)) { std::cout << "P init=0\n"; return true; }
@@ -388,6 +436,14 @@ int main(int argc, char **argv) {
             std::cout << state_line(1) << "\n";
         } else if (op == "gtod" && w.size() == 2 && bool_of(w[1], b)) {
             gtod_fail = !b;
+            std::cout << state_line(1) << "\n";
+        } else if (op == "skew" && w.size() == 4 && bounded(w[1], 999, n) && bounded(w[2], 10000000, n2) && int_of(w[3], -4000000, 4000000, iv)) {
+            // sub_us inc_us step_ms; "skew 0 0 0" = the clock stands still during a library call again
+            skew_sub_us = (int64_t)n; skew_inc_us = (int64_t)n2; skew_step_us = iv * 1000;
+            skew_on = (n != 0 || n2 != 0 || iv != 0);
+            std::cout << state_line(1) << "\n";
+        } else if (op == "gtlater" && w.size() == 2 && bool_of(w[1], b)) {
+            later_fail = b;
             std::cout << state_line(1) << "\n";
         } else if (op == "caldel" && w.size() == 1 && cal && !any_workday_enabled()) {
             cal.reset();                                        // the calendar dies; alarms that are not enabled may outlive it
